@@ -220,8 +220,8 @@ def execute(pid, cs, wd, verdict, drv):
         c = cs[o["t"]]
         verdict.violation("%s/%s" % (o["mon"], shape(c)), "monitor %s is false on real full-stack run %d (%s %s n=%d t=%d seed=%d policy=%s)" % (
             o["mon"], o["t"], c["scheme"], c["mode"], c["n"], c["t"], c["seed"], c["policy"]), dict(property=pid, monitor=o["mon"], case=c, outcome=lines_by_t.get(o["t"], [])[:30]))
-    st_res = "thorough tier only"
-    if vlib.tier() == "thorough" and not verdict.violations:
+    st_res = None
+    if not verdict.violations:
         def c_pub(evs):
             for e in evs:
                 if e["e"] == "kgret" and e["ok"]:
@@ -230,11 +230,16 @@ def execute(pid, cs, wd, verdict, drv):
             return False
 
         def c_reveal(evs):
+            # the first reveal broadcast of an HONEST node of some run: one of the commitments handed to that node before is removed
+            byz = {}
+            for e in evs:
+                if e["e"] == "reset":
+                    byz[e["t"]] = e.get("byznode", 0) if e.get("byz") else 0
             for i, e in enumerate(evs):
-                if e["e"] == "bsend" and e["kind"] == 3:
+                if e["e"] == "bsend" and e["kind"] == 3 and e["node"] != byz.get(e["t"], 0):
                     node = e["node"]
                     for j in range(i):
-                        if evs[j]["e"] == "onmsg" and evs[j]["node"] == node and evs[j]["kind"] == 2:
+                        if evs[j]["e"] == "onmsg" and evs[j]["t"] == e["t"] and evs[j]["node"] == node and evs[j]["kind"] == 2:
                             del evs[j]
                             return True
             return False
@@ -261,8 +266,26 @@ def execute(pid, cs, wd, verdict, drv):
                     n += 1
                     if n >= 12:
                         break
-        st_res = vlib.binding_selftest("stack", head, [("public material of one party changed", c_pub), ("a commitment hand-over removed before a reveal", c_reveal),
-                                                        ("a failing subset reported", c_sign)], validate)
+        def c_noreturn(evs):
+            for e in evs:
+                if e["e"] == "kgret" and e["returned"]:
+                    e["returned"] = False
+                    return True
+            return False
+
+        def c_crash(evs):
+            for i, e in enumerate(evs):
+                if e["e"] == "end":
+                    evs.insert(i, {"t": e["t"], "e": "crash", "hang": False, "detail": "made up"})
+                    return True
+            return False
+
+        if pid == "C11":
+            corruptions = [("a call reported as never returning", c_noreturn), ("a process death inserted", c_crash)]
+        else:
+            corruptions = [("public material of one party changed", c_pub), ("a commitment hand-over removed before a reveal", c_reveal),
+                           ("a failing subset reported", c_sign)]
+        st_res = vlib.binding_selftest("stack", head, corruptions, validate)
     events = sum(1 for _ in open(outfile))
     return dict(validated=len(ends), completed=sum(1 for o in ends if o["completed"] > 0), drift=sum(drift.values()), drift_kinds=drift, events=events,
                 distinct=len(set(json.dumps(c, sort_keys=True) for c in cs)), selftest=st_res,
